@@ -43,8 +43,10 @@ package series
 //@   requires tsbr != nil && tsbr.numTSIDs <= 67108864 && tsoWf(tsbr.rawTSO, tsbr.tsoVersion, uint32(tsbr.numTSIDs)) && tsoCursorInv(tsbr)
 //@   site call getOffsetFromTsoFile #1:
 //@     hint int(tsbr.lastTSidx)
+//@   site call getOffsetFromTsoFile #3:
+//@     hint int(tsbr.lastTSidx)
 //@   ensures [cursor-stays-on-a-found-entry] tsoCursorInv(tsbr)
 //@   ensures [table-untouched] samebase(tsbr.rawTSO, old(tsbr.rawTSO)) && len(tsbr.rawTSO) == old(len(tsbr.rawTSO)) && tsbr.tsoVersion == old(tsbr.tsoVersion) && tsbr.numTSIDs == old(tsbr.numTSIDs)
-//@   ensures [a-stored-series-is-found] implies(!result1 && (old(tsbr.first) || tsid != old(tsbr.lastTSID)), forall(i, 0, int(tsbr.numTSIDs), tsoAt(tsbr.rawTSO, tsbr.tsoVersion, i) != tsid))
+//@   ensures [a-stored-series-is-found] implies(!result1, forall(i, 0, int(tsbr.numTSIDs), tsoAt(tsbr.rawTSO, tsbr.tsoVersion, i) != tsid))
 //@   ensures [found-means-stored] implies(result1, !tsbr.first && tsbr.lastTSID == tsid)
 //@ end
